@@ -32,6 +32,8 @@ FSTRING_PROGRAMS = [
     ("quote-literal-part", "x = 1\nprint(f'it\\'s \"{x}\"')\n"),
     ("walrus-subscript", "l = [1, 2, 3]\nprint(l[(i := 1)], i)\n"),
     ("star-subscript-tuple", "d = {}\nt = (1, 2)\nd[(*t, 3)] = 1\nprint(d)\n"),
+    ("class-body-comprehension-global", "SCALE = 3\nclass K:\n    rows = [SCALE * r for r in range(2)]\n    s = {SCALE for _ in range(1)}\n    d = {r: len(str(SCALE)) for r in range(2)}\nprint(K.rows, K.s, K.d)\n"),
+    ("function-comprehension-closure", "def f(n):\n    def g():\n        return n\n    return [n + i for i in range(2)], g()\nprint(f(2))\n"),
     ("posonly", "def f(a, /, b, *, c=1):\n    return a + b + c\nprint(f(1, 2))\n"),
     ("dict-merge-free", "a = {1: 2}\nb = {**a, 3: 4}\nprint(b)\n"),
     ("unpack-in-return", "def f():\n    t = (1, 2)\n    return (*t, 3)\nprint(f())\n"),
@@ -90,8 +92,21 @@ def main(argv):
                 ck.count("host_failed:" + h)
                 continue
             host_texts[h] = json.load(open(out))["texts"]
+        # a conversion that raises on one host but succeeds on another host
+        for pi, (name, src) in enumerate(progs):
+            keys = set()
+            for h in host_texts:
+                keys |= set(host_texts[h][pi])
+            for key in sorted(keys):
+                ok_hosts = [h for h in host_texts if isinstance(host_texts[h][pi].get(key), str)]
+                # a deliberate refusal (SyntaxError / RuntimeError / NotImplementedError) on some host is allowed; a crash is not
+                bad_hosts = [(h, host_texts[h][pi][key]["raised"]) for h in host_texts if isinstance(host_texts[h][pi].get(key), dict)
+                             and host_texts[h][pi][key]["raised"] not in ("SyntaxError", "RuntimeError", "NotImplementedError")]
+                if ok_hosts and bad_hosts:
+                    failing.append((name, src, bad_hosts[0][0], "-", key, f"conversion crashes on host {bad_hosts} but succeeds on host {ok_hosts}"))
+                ck.count("host_conversions", len(ok_hosts) + len(bad_hosts))
         for h, texts in host_texts.items():
-            jobs = [{"source": s, "texts": {k: t for k, t in tx.items() if t is not None}} for (_, s), tx in zip(progs, texts)]
+            jobs = [{"source": s, "texts": {k: t for k, t in tx.items() if isinstance(t, str)}} for (_, s), tx in zip(progs, texts)]
             json.dump(jobs, open(os.path.join(d, f"jobs{h}.json"), "w"))
             def runtime(rt, h=h):
                 out = os.path.join(d, f"rt{h}_{rt}.json")
